@@ -3,6 +3,7 @@ package main
 // govc check <property>: regenerate and discharge every claimed obligation, write evidence, report violations.
 
 import (
+	"sync"
 	"os/exec"
 	"context"
 	"encoding/json"
@@ -67,6 +68,7 @@ func cmdCheck(args []string) int {
 	verbose := fs.Bool("v", false, "verbose")
 	keep := fs.Bool("keep", false, "keep smt files")
 	noEvidence := fs.Bool("no-evidence", false, "do not write the evidence file (used by selftests)")
+	recHints := fs.Bool("record-hints", false, "after the check, record proof hints (hypothesis cores) for the slow obligations in proofhints.json")
 	var id string
 	rest := args
 	if len(rest) > 0 && !strings.HasPrefix(rest[0], "-") {
@@ -194,6 +196,28 @@ func cmdCheck(args []string) int {
 	if len(again) > 0 && len(again) <= 8 && !definite {
 		fmt.Fprintf(os.Stderr, "retrying %d undecided obligation(s) with timeout %ds\n", len(again), timeout*3/2)
 		solveAll(again, workDir, timeout*3/2, *keep)
+	}
+
+	if *recHints {
+		var wg sync.WaitGroup
+		sem := make(chan struct{}, 4)
+		n := 0
+		for _, o := range all {
+			if o.Cover || !o.ok() || o.Wall < 2.5 || strings.Contains(o.Res.Solver, "+hints") {
+				continue
+			}
+			n++
+			wg.Add(1)
+			go func(o *Obligation) {
+				defer wg.Done()
+				sem <- struct{}{}
+				defer func() { <-sem }()
+				recordHintFor(o, workDir)
+			}(o)
+		}
+		wg.Wait()
+		saveHints()
+		fmt.Fprintf(os.Stderr, "proof hints: %d slow obligations examined, %d hints recorded\n", n, len(newHints))
 	}
 
 	// ---- report
